@@ -32,6 +32,7 @@ Oracle (independent reading of the property over what the implementation did; ow
 from common import compare, load_corpus, HarnessError
 import c11_util
 from c11_util import rfc_parse_option, rfc_build_option, rfc_parse_datagram
+import c11_fs
 
 RULE = ("Scenarios = (algorithm/nonce length, client and server sender-ID lengths 0..7, ID "
         "context, master secret/salt, sender sequence numbers around every Partial-IV length "
@@ -50,7 +51,19 @@ RULE = ("Scenarios = (algorithm/nonce length, client and server sender-ID length
         "request accepted and answered (nonce re-used), recipient state lost (window uninitialised, "
         "Echo recovery), the same request replayed -> 4.01 + Echo challenge -> request with the "
         "Echo value -> response, with every (key, nonce) pair handed to the AEAD collected over the "
-        "whole history. Boundary table enumerated in full; random part from env.rng. A case is "
+        "whole history. Round 4: every single-bit change of the outer code byte and bytes appended to the "
+        "OSCORE option for every request and response (the oracle's option reader is the strict RFC 8613 "
+        "6.1 / 5 grammar: what it calls malformed must be refused); Proxy-Uri requests of every shape "
+        "(5 authorities x 6 paths x 6 queries, schemes rotating; judged whenever protect() succeeds: no "
+        "Uri-Path / Uri-Query / path or query marker / Proxy-Uri beyond scheme and authority outside, path "
+        "and query back as Uri-Path / Uri-Query); the lives of a process on the real "
+        "FilesystemSecurityContext: killed or stopped after EVERY count k = 0..75 of protects of the first "
+        "life, after k2 of the second, protecting again; orderly stops mixed in; other chunk "
+        "configurations; start values around the Partial-IV length boundaries and the last number; random "
+        "histories with notifications and Echo challenges - compared with the Lean sendRun, the oracle "
+        "demanding that no Partial IV / (key, nonce) pair occurs twice over all lives and that one peer "
+        "with a lasting replay window accepts every genuine message. "
+        "Boundary table enumerated in full; random part from env.rng. A case is "
         "non-trivial when the message has inner options or payload and the step's outcome is "
         "determined by the property (accepted round trip / rejected manipulation).")
 TRUSTED = ["system libcrypto (AES-CCM through ctypes) for the RFC 8613 appendix C replay only",
@@ -62,7 +75,9 @@ ASSUMPTIONS = ["AEAD: decryption inverts encryption; what decrypts under (key, n
                "satisfied by the transparent instance, cryptographic strength of real AES-CCM not proved",
                "key derivation (HKDF) yields different keys for different contexts (checked on the "
                "generated contexts, not modelled)",
-               "Group OSCORE, deterministic requests, appendix B.2, Proxy-Uri splitting are out of model",
+               "Group OSCORE, deterministic requests, appendix B.2 are out of model; Proxy-Uri splitting is oracle only",
+               "crash histories of C11: the process dies BETWEEN operations (kill / orderly stop); a process dying inside "
+               "_store, and I/O errors survived by the process, are C13's subject / outside the quantifier",
                "replay protection as such (at most once, window sizes, persistence) is C12's / C13's subject; "
                "here the window only matters for 'a rejected message consumes nothing' and for which "
                "request nonces may be re-used; single-message cases use fresh recipient windows"]
@@ -401,8 +416,53 @@ def rewire(k, wire, oscore_value=None, payload=None, code=None, extra_opts=None)
 
 # --------------------------------------------------------------------------- oracle
 
+def split_proxy_uri(uri):
+    """RFC 3986 §3 / RFC 7252 §6.4, written for the oracle: (scheme, authority, [path segments], [query parts]) of an
+    absolute URI with authority, percent-decoded; None when it has no such form"""
+    if b"://" not in uri or b"#" in uri:
+        return None
+    scheme, rest = uri.split(b"://", 1)
+    cut = min([i for i in (rest.find(b"/"), rest.find(b"?")) if i >= 0] or [len(rest)])
+    authority, tail = rest[:cut], rest[cut:]
+    path, _, query = tail.partition(b"?")
+    has_query = b"?" in tail
+
+    def pct(x):
+        out, i = bytearray(), 0
+        while i < len(x):
+            if x[i:i + 1] == b"%" and len(x) >= i + 3 and all(c in b"0123456789abcdefABCDEF" for c in x[i + 1:i + 3]):
+                out.append(int(x[i + 1:i + 3], 16))
+                i += 3
+            else:
+                out.append(x[i])
+                i += 1
+        return bytes(out)
+    segs = [] if path in (b"", b"/") else [pct(x) for x in path.split(b"/")[1:]]
+    qs = [pct(x) for x in query.split(b"&")] if has_query and query else []
+    return scheme, authority, segs, qs
+
+
+def proxy_uri_of(spec):
+    vs = [unhx(v) for n, v in spec["opts"] if n == 35]
+    return vs[0] if vs else None
+
+
+def marker_in(b):
+    i = b.find(b"M")
+    if i >= 0 and len(b) - i >= 7 and b[i + 1:i + 6].isalpha():
+        return b[i:i + 7]
+    return None
+
+
 def spec_markers(spec, inner_only=True):
     ms = []
+    pu = proxy_uri_of(spec)
+    if pu is not None and split_proxy_uri(pu) is not None:
+        # path and query of a Proxy-Uri are end-to-end data (RFC 8613 §4.1.3.3); scheme and authority are routing
+        _, _, segs, qs = split_proxy_uri(pu)
+        for x in segs + qs:
+            if marker_in(x):
+                ms.append(marker_in(x))
     for n, v in spec["opts"]:
         if inner_only and n in INNER_REMOVED:
             continue
@@ -431,12 +491,24 @@ def oracle_outer(wire, spec):
     for m in spec_markers(spec):
         if m in front:
             return f"inner data {m!r} visible in the outer message"
+    for n, v in opts:
+        if n == 35:
+            # an outer Proxy-Uri may name the next hop's target, not the resource: scheme and authority only
+            sp = split_proxy_uri(v)
+            if sp is None or sp[2] or sp[3] or b"?" in v:
+                return f"outer Proxy-Uri {v!r} carries more than scheme and authority"
     return ""
 
 
 def expected_inner(spec, is_request, outer_observe_added=None, seqno=None):
     """(code, [(num, raw)] without Observe, observe, payload) the recipient must obtain"""
     opts = [(n, unhx(v)) for n, v in spec["opts"] if not (is_request and n in INNER_REMOVED)]
+    pu = proxy_uri_of(spec) if is_request else None
+    if pu is not None and split_proxy_uri(pu) is not None:
+        # RFC 8613 §4.1.3.3: the Proxy-Uri is split; its path and query travel inside as Uri-Path / Uri-Query
+        _, _, segs, qs = split_proxy_uri(pu)
+        opts = sorted([o for o in opts if o[0] not in (11, 15)] + [(11, x) for x in segs] + [(15, x) for x in qs],
+                      key=lambda o: o[0])
     obs_in = [int.from_bytes(v, "big") for n, v in opts if n == 6]
     obs = obs_in[0] if obs_in else None
     if is_request:
@@ -603,6 +675,12 @@ def option_rewrites(orig, kind, expect_kid, expect_ctx, rng):
         out.append(("ctx-added-wrong", b(ctx=(expect_ctx or b"")[:200] + b"\x07")))
         out.append(("ctx-flag-without-length", bytes([(orig[0] if orig else 0) | 0x10]) +
                     (orig[1:1 + (len(piv) if piv else 0)] if orig else b"")))
+    # bytes that belong to no announced field (RFC 8613 §6.1 leaves no room for them): behind the last field of
+    # the option, as a flags byte without flags in front of nothing / of junk
+    out.append(("bytes-appended", orig + b"\xaa"))
+    out.append(("bytes-appended", orig + bytes([rng.randrange(256), rng.randrange(256)])))
+    out.append(("zero-byte-appended", orig + b"\x00"))
+    out.append(("option-00", b"\x00"))
     out.append(("lone-h-flag", b"\x10"))
     out.append(("group-flag", bytes([(orig[0] if orig else 0) | 0x20]) + orig[1:]))
     out.append(("reserved-bit-6", bytes([(orig[0] if orig else 0) | 0x40]) + orig[1:]))
@@ -661,6 +739,11 @@ def manipulations(k, scn, kind, j, wire, rid, opt_value, payload, expect_kid, ex
     else:
         ms.append({"kind": "code", "code": 5 if wire[1] == 2 else 2})
         ms.append({"kind": "code", "code": 1})
+    # every single-bit change of the outer code byte (the code travels unprotected: POST -> PUT / 2.02 / 0.00,
+    # 2.04 -> 0.04 / 2.06 / 6.04, ...) and the other classes
+    for c in sorted({wire[1] ^ (1 << b) for b in range(8)} | {0, 31, 32, 64, 191, 192, 255}):
+        if c != wire[1] and {"kind": "code", "code": c} not in ms:
+            ms.append({"kind": "code", "code": c})
     ms.append({"kind": "outeropt", "n": 3, "v": hx(b"other.example")})
     for m in ms:
         m.update({"on": kind, "j": j})
@@ -716,19 +799,19 @@ def apply_manip(k, scn, art, m, sink, base_case):
                                           rid.code_style.request)
         w = wire
     elif t == "code":
-        w = rewire(k, wire, code=m["code"])
+        w = wire[:1] + bytes([m["code"]]) + wire[2:]       # the code byte of the datagram itself
     elif t == "outeropt":
         w = rewire(k, wire, extra_opts=[(m["n"], unhx(m["v"]))])
     else:
         raise HarnessError(f"unknown manipulation {t}")
     out, line, _, _ = do_unprotect(k, ctx, rid, w)
     what = f"{kind}[{m['j']}] {t} {m.get('label', '')}".strip()
-    if t == "code" and m["code"] not in (2, 5, 68, 69):
-        # the outer code is class U and not among the fields the property lists; only the
-        # correspondence is checked (and that no message comes out)
-        verdict = f"{what}: message accepted with outer code {m['code']}" if out.startswith("ok") else ""
-    else:
-        verdict = judge(out, must_fail, base_out, what)
+    if t == "code" and kind == "req" and m["code"] not in (2, 5):
+        # a request whose outer code is not one of the fixed outer codes is not a protected request
+        must_fail = f"outer code {m['code']} of a request is neither POST nor FETCH"
+    # (any other change of the unauthenticated outer code: refused with a protection error, or - RFC 8613 lets the
+    # recipient ignore the outer code - accepted with exactly the original message; never another exception)
+    verdict = judge(out, must_fail, base_out, what)
     tag = "manip:" + t + (":must-fail" if must_fail else ":representation")
     case = dict(base_case)
     case["manip"] = m
@@ -1057,6 +1140,40 @@ def peer_last_number_one(k, scn, sink):
                  "roundtrip:request:last-number", nontrivial=True, tag="step:peer-last-number")
 
 
+PU_SCHEMES = [b"coap", b"coaps", b"coap+tcp", b"coaps+tcp", b"coap+ws", b"coap", b"http"]
+
+
+def proxy_uri_shapes(gen):
+    """(label, uri builder) for every shape of a Proxy-Uri: the marker sits in path and query (end-to-end data)"""
+    auths = [("name", lambda: b"px" + gen.marker().lower() + b".example"),
+             ("name-port", lambda: b"px" + gen.marker().lower() + b".example:61616"),
+             ("ipv4", lambda: b"192.0.2.7"),
+             ("ipv6", lambda: b"[2001:db8::1]"),
+             ("ipv6-port", lambda: b"[2001:db8::1]:5683")]
+    paths = [("nopath", lambda: b""), ("slash", lambda: b"/"), ("seg", lambda: b"/P" + gen.marker()),
+             ("segs", lambda: b"/a/b/P" + gen.marker()), ("emptyseg", lambda: b"//P" + gen.marker()),
+             ("pct", lambda: b"/%50" + gen.marker() + b"%2Fx")]
+    queries = [("noquery", lambda: b""), ("q", lambda: b"?Q" + gen.marker()),
+               ("qq", lambda: b"?a=b&Q" + gen.marker()), ("qslash", lambda: b"?Q" + gen.marker() + b"/with/slashes"),
+               ("qpct", lambda: b"?%51" + gen.marker() + b"=%26"), ("qempty", lambda: b"?")]
+    for an, a in auths:
+        for pn, p in paths:
+            for qn, q in queries:
+                yield f"{an}/{pn}/{qn}", (lambda sc, a=a, p=p, q=q: sc + b"://" + a() + p() + q())
+
+
+def proxy_uri_scenarios(gen, rng, env):
+    out = []
+    for i, (label, build) in enumerate(proxy_uri_shapes(gen)):
+        for scheme in (PU_SCHEMES if env.tier != "quick" else [PU_SCHEMES[i % len(PU_SCHEMES)]]):
+            s = gen.scenario(alg=(10, 13), nresp=rng.choice([0, 0, 1]), flips="none")
+            s["req"]["opts"] = sorted([o for o in s["req"]["opts"] if o[0] not in (3, 7, 39, 11, 15)] +
+                                      [[35, hx(build(scheme))]], key=lambda o: o[0])
+            s["proxy_uri_shape"] = label
+            out.append(s)
+    return out
+
+
 def make_twin(gen, scn):
     """a request that agrees with scn['req'] on the outer-visible fields only"""
     req = scn["req"]
@@ -1069,6 +1186,43 @@ def make_twin(gen, scn):
 
 
 # --------------------------------------------------------------------------- helper-level lines
+
+def judge_z(oscore, v):
+    """`_uncompress(v)` against the RFC 8613 §6.1 / §5 reader of the oracle: (canonical output, verdict, key)"""
+    try:
+        _, _, u, _ = oscore.CanUnprotect._uncompress(v, b"")
+    except oscore.ProtectionInvalid as e:
+        if rfc_parse_option(v) is not None:
+            return err_name(e), f"_uncompress rejected well-formed option {v.hex()}", "uncompress:rejects-valid"
+        return err_name(e), "", ""
+    except Exception as e:
+        return err_name(e), f"_uncompress({v.hex()}) raised {type(e).__name__} instead of a protection error", \
+            "uncompress:" + type(e).__name__
+    piv = u.get(oscore.COSE_PIV)
+    kid = u.get(oscore.COSE_KID)
+    ctx = u.get(oscore.COSE_KID_CONTEXT)
+    grp = 1 if oscore.COSE_COUNTERSIGNATURE0 in u else 0
+    try:
+        back = hx(oscore.CanProtect._compress({}, dict(u), b"")[0])
+    except ValueError:
+        back = "~"
+
+    def s(x):
+        return "~" if x is None else hx(x)
+    out = f"{s(piv)} {s(kid)} {s(ctx)} {grp} {back}"
+    p = rfc_parse_option(v)
+    if p is None:
+        # bytes behind the announced fields, a flags byte without flags, a Partial IV with leading zeros, ...: an
+        # option value that is not the encoding of the fields read from it - a changed option that is not noticed
+        return out, f"_uncompress accepted the malformed option {v.hex()} as {out}", "uncompress:accepts-malformed"
+    if (p["piv"], p["kid"], p["ctx"], p["group"]) != (piv, kid, ctx, bool(grp)):
+        return out, f"_uncompress({v.hex()}) = {out}, RFC reader: {p}", "uncompress:differs-from-rfc"
+    if back not in ("~", hx(v)):
+        return out, f"_uncompress({v.hex()}) = {out}, which _compress encodes as {back}: two option values, one header", \
+            "uncompress:not-injective"
+    return out, "", ""
+
+
 
 def helper_lines(k, env, rep):
     rng = env.rng
@@ -1109,7 +1263,10 @@ def helper_lines(k, env, rep):
              b"\x19\x05\x01\xaa", b"\x19\x05\x01\xaa\xbb", b"\x06" + b"\0" * 6, b"\x07" + b"\0" * 7,
              b"\x05\x01\x02\x03\x04", b"\x05\x01\x02\x03\x04\x05", b"\x20", b"\x40", b"\x80",
              b"\x18\x00", b"\x18\x01", b"\x10\xff" + b"a" * 254, b"\x10\xff" + b"a" * 255,
-             b"\x1d" + b"\x01" * 5 + b"\x02ab" + b"kid", b"\x0e" + b"\0" * 6 + b"k"]
+             b"\x1d" + b"\x01" * 5 + b"\x02ab" + b"kid", b"\x0e" + b"\0" * 6 + b"k",
+             # bytes behind the announced fields / flags byte without flags / Partial IV not in its shortest form
+             b"\x01\x05\xaa", b"\x00\xaa\xbb", b"\x02\x00\x05", b"\x01\x00", b"\x02\x00\x00", b"\x05\x00\x01\x02\x03\x04",
+             b"\x0a\x00\x05\x01", b"\x11\x05\x01\x37\xaa", b"\x10\x00\xaa", b"\x20\xaa", b"\x21\x05\xaa", b"\x19\x05\x01\x37"]
     zvals = [unhx(c["z"]) for _, c in load_corpus("C11") if "z" in c] + zvals
     for fb in range(256):
         zvals.append(bytes([fb]))
@@ -1127,38 +1284,11 @@ def helper_lines(k, env, rep):
             v = bytes([rng.randrange(64)]) + bytes(rng.randrange(256) for _ in range(rng.randrange(0, 12)))
         zvals.append(v)
     for v in (zvals if z_ok else []):
-        try:
-            _, _, u, _ = oscore.CanUnprotect._uncompress(v, b"")
-            piv = u.get(oscore.COSE_PIV)
-            kid = u.get(oscore.COSE_KID)
-            ctx = u.get(oscore.COSE_KID_CONTEXT)
-            grp = 1 if oscore.COSE_COUNTERSIGNATURE0 in u else 0
-            try:
-                back = hx(oscore.CanProtect._compress({}, dict(u), b"")[0])
-            except ValueError:
-                back = "~"
-
-            def s(x):
-                return "~" if x is None else hx(x)
-            out = f"{s(piv)} {s(kid)} {s(ctx)} {grp} {back}"
-            # oracle: agrees with the RFC reader
-            p = rfc_parse_option(v)
-            if p is None or (p["piv"], p["kid"], p["ctx"], p["group"]) != (piv, kid, ctx, bool(grp)):
-                # trailing bytes after a k-less option are ignored by the implementation; the RFC
-                # reader does the same, so any difference is a finding
-                rep.oracle_fail({"z": hx(v)}, f"_uncompress({v.hex()}) = {out}, RFC reader: {p}",
-                                key="uncompress:differs-from-rfc")
-        except oscore.ProtectionInvalid as e:
-            out = err_name(e)
-            if rfc_parse_option(v) is not None:
-                rep.oracle_fail({"z": hx(v)}, f"_uncompress rejected well-formed option {v.hex()}",
-                                key="uncompress:rejects-valid")
-        except Exception as e:
-            out = err_name(e)
-            rep.oracle_fail({"z": hx(v)},
-                            f"_uncompress({v.hex()}) raised {type(e).__name__} instead of a protection error",
-                            key="uncompress:" + type(e).__name__)
+        out, verdict, key = judge_z(oscore, v)
+        if verdict:
+            rep.oracle_fail({"z": hx(v)}, verdict, key=key)
         add({"z": hx(v)}, f"C11 Z {hx(v)}", out, "helper:Z")
+        rep.count("Z:" + ("ok" if not out.startswith("err") else out))
 
     # N: _construct_nonce
     for ivb in ((7, 12, 13) if n_ok else ()):
@@ -1331,6 +1461,92 @@ def rfc_vectors(k, env, rep):
                     rep.oracle_fail(case, v, key=f"rfc8613:{name}:rid")
 
 
+# --------------------------------------------------------------------------- lives of a process (persisted context)
+
+PERSIST_STEPS = 75          # beyond the 4th persistence step of the default chunks (1, 11, 31, 71)
+
+
+def history_table(gen, rng, env):
+    """crash histories on the real FilesystemSecurityContext: the process is killed (K) or stopped (S) after EVERY
+    count k of protect operations of a life, k = 0 .. beyond the third (in fact fourth) persistence step, in the
+    first and in the second life, then protects again"""
+    def ids():
+        ls, lr = rng.randint(0, 7), rng.randint(0, 7)
+        if ls == 0 and lr == 0:
+            lr = 1
+        a, b = gen.ids(ls, lr)
+        return {"sid": hx(a), "rid": hx(b), "secret": hx(bytes(rng.randrange(256) for _ in range(16))),
+                "salt": hx(bytes(rng.randrange(256) for _ in range(rng.choice([0, 8])))),
+                "idctx": None if rng.random() < 0.6 else hx(bytes(rng.randrange(256) for _ in range(rng.choice([0, 1, 8]))))}
+
+    def hist(events, start=None, limit=None, disk=None):
+        h = ids()
+        h.update({"start": start, "limit": limit, "disk": disk, "events": list(events)})
+        return h
+
+    hs = []
+    second = [0, 1, 2, 9, 10, 11, 12, 29, 30, 31, 32, 33]
+    full = env.tier != "quick"
+    # A: kill after k1 protects of the first life (every k1), after k2 of the second, then go on
+    for k1 in range(PERSIST_STEPS + 1):
+        for k2 in (range(36) if full else [second[k1 % len(second)], second[(5 * k1 + 3) % len(second)]]):
+            hs.append(hist(["q"] * k1 + ["K"] + ["q"] * k2 + ["K"] + ["q"] * 2 + ["S", "q"]))
+    # B: every k2 of the second life after a first life that ended right after its 1st / 11th / 12th protect
+    for k1 in (1, 11, 12):
+        for k2 in range(36):
+            hs.append(hist(["q"] * k1 + ["K"] + ["q"] * k2 + ["K", "q", "q"]))
+    # C: an orderly stop first (exact number on disk), kills later; and the other way round
+    for k1 in (0, 1, 5, 10, 11, 31):
+        for k2 in (0, 1, 2, 10, 11, 12, 31):
+            hs.append(hist(["q"] * k1 + ["S"] + ["q"] * k2 + ["K", "q", "q", "K", "q"]))
+            hs.append(hist(["q"] * k1 + ["K"] + ["q"] * k2 + ["S", "q", "K", "q", "q"]))
+    # D: other chunk configurations (the persistence steps move): every k1 up to beyond the third step
+    for start, limit in ((1, 1), (1, 4), (2, 3), (3, 100), (16, 16), (10, 10)):
+        for k1 in range(0, 3 * max(start, 2) + 8):
+            hs.append(hist(["q"] * k1 + ["K"] + ["q"] * (k1 % 3) + ["K", "q", "q"], start=start, limit=limit))
+    # E: a context that has been in use: numbers around the Partial-IV length boundaries and the last number
+    for disk in (250, 65530, (1 << 24) - 5, (1 << 32) - 3, (1 << 40) - 12, (1 << 40) - 2):
+        for k1 in (0, 1, 6, 11):
+            for k2 in (0, 1):
+                hs.append(hist(["q"] * k1 + ["K"] + ["q"] * k2 + ["K", "q", "q", "q"], disk=disk))
+    # F: random histories, requests of the peer answered in between (notifications / Echo challenges take numbers too)
+    for _ in range(env.scale(40, 800)):
+        evs = []
+        for _life in range(rng.randint(2, 4)):
+            evs += [rng.choice("qqqn") for _ in range(rng.choice([0, 1, 2, 3, 9, 10, 11, 12, 13, 30, 31, 32, rng.randrange(40)]))]
+            evs.append(rng.choice("KKKS"))
+        evs += [rng.choice("qn") for _ in range(rng.randint(1, 3))]
+        cfg = rng.choice([(None, None), (None, None), (1, 2), (4, 16), (7, 7)])
+        hs.append(hist(evs, start=cfg[0], limit=cfg[1],
+                       disk=rng.choice([None, None, 0, 9, 10, 255, 65535, rng.randrange(1 << 30)])))
+    return hs
+
+
+def play_history(runner, h, sink):
+    """one history on the real FilesystemSecurityContext: tokens against the Lean `sendRun`, and the oracle: no
+    Partial IV / (key, nonce) pair twice over all lives, every genuine message accepted by the peer"""
+    tokens, verdict = runner.run(h)
+    sink.add({"hist": h}, c11_fs.driver_line(h), " ".join(tokens), verdict, "hiding:nonce-reuse-across-lives",
+             nontrivial=True, tag="step:crash-history")
+    if sink.rep is not None:
+        kills = [i for i, e in enumerate(h["events"]) if e in "KS"]
+        first = kills[0] if kills else len(h["events"])
+        sink.rep.count("history:first-life-protects=%s" % (first if first <= 12 or first in (29, 30, 31, 32, 70, 71, 72)
+                                                          else "other"))
+        sink.rep.count("history:lives=%d" % (len(kills) + 1))
+    return verdict
+
+
+def crash_histories(k, env, rep, gen, sink):
+    runner = c11_fs.FsRunner(k)
+    for fn, c in load_corpus("C11"):
+        if "hist" in c:
+            play_history(runner, c["hist"], sink)
+            rep.count("corpus")
+    for h in history_table(gen, env.rng, env):
+        play_history(runner, h, sink)
+
+
 # --------------------------------------------------------------------------- entry points
 
 def boundary_scenarios(gen, rng):
@@ -1409,16 +1625,14 @@ def run(env, rep):
         if rng.random() < 0.6:
             s["twin"] = make_twin(gen, s)
         scns.append(s)
-    # requests with Proxy-Uri: out of model (URI splitting), oracle only
-    for _ in range(env.scale(6, 40)):
-        s = gen.scenario(nresp=0, flips="none")
-        s["req"]["opts"] = sorted(
-            [o for o in s["req"]["opts"] if o[0] not in (3, 7, 39, 11, 15)] +
-            [[35, hx(b"coap://px" + gen.marker() + b".example:61616/P" + gen.marker() + b"?Q" + gen.marker())]],
-            key=lambda o: o[0])
-        scns.append(s)
+    # requests with Proxy-Uri (sent through a forward proxy): URI splitting is out of the Lean model, oracle only -
+    # whenever protect() succeeds the outer message and the round trip are judged.  Every shape of the URI:
+    # authority x path x query in full, the scheme rotating.
+    scns += proxy_uri_scenarios(gen, rng, env)
 
     for i, scn in enumerate(scns):
+        if "proxy_uri_shape" in scn:
+            rep.count("proxy-uri:" + scn["proxy_uri_shape"].split("/", 1)[-1])
         rep.count("alg-iv=%d" % scn["alg"][1])
         rep.count("idlen=%d/%d" % (len(unhx(scn["cid"])), len(unhx(scn["sid"]))))
         rep.count("idctx=" + ("none" if scn["idctx"] is None else str(len(unhx(scn["idctx"])))))
@@ -1434,10 +1648,13 @@ def run(env, rep):
             sink.cases, sink.lines, sink.impl = [], [], []
     peer_last_number(k, gen, sink)
     compare(env, rep, sink.cases, sink.lines, sink.impl, what="protect/unprotect")
+    sink.cases, sink.lines, sink.impl = [], [], []
+    crash_histories(k, env, rep, gen, sink)
+    compare(env, rep, sink.cases, sink.lines, sink.impl, what="lives of a persisted context")
     for need in ("step:unprotect-request", "step:unprotect-response", "step:session-forgeries",
                  "step:crash-challenge", "step:crash-second-life", "manip:optbit:must-fail",
                  "manip:paybit:must-fail", "manip:rid:must-fail", "manip:key:must-fail",
-                 "manip:optset:representation"):
+                 "manip:optset:representation", "step:crash-history"):
         if not rep.hist.get(need):
             if rep.oracle_failures or rep.disagreements:
                 # the implementation under test broke the exchanges themselves; that is reported
@@ -1447,7 +1664,9 @@ def run(env, rep):
                 raise HarnessError(f"generator produced no case of kind {need}")
     rep.exhaustive_parts.append("all single-bit flips of OSCORE option and ciphertext on 4 exchanges; "
                                 "all ID-length pairs 0..7; all Partial-IV length boundaries; "
-                                "all 256 first bytes of the OSCORE option")
+                                "all 256 first bytes of the OSCORE option; all single-bit changes of the outer code "
+                                "of every request and response; every kill point 0..75 protects into the first life "
+                                "of a persisted context; all 180 Proxy-Uri shapes")
 
 
 def replay(env, case):
@@ -1461,14 +1680,9 @@ def replay(env, case):
         rfc_vectors(k, env, r)
         return r.oracle_failures[0]["verdict"] if r.oracle_failures else ""
     if "z" in case:
-        v = unhx(case["z"])
-        try:
-            oscore.CanUnprotect._uncompress(v, b"")
-        except oscore.ProtectionInvalid:
-            return ""
-        except Exception as e:
-            return f"_uncompress({v.hex()}) raised {type(e).__name__} instead of a protection error"
-        return ""
+        return judge_z(oscore, unhx(case["z"]))[1]
+    if "hist" in case:
+        return c11_fs.FsRunner(k).run(case["hist"])[1]
     scn = case["scn"]
     sink = Sink(None)
     if "session" in case:
